@@ -13,6 +13,8 @@ package main
 //   case <n> sub <c> <f,q;f,q…>
 //   case <n> unsub <c> <f;f…>
 //   case <n> pub <c> <msg>                 msg = topic,payload,qos,retain (hx.MsgText)
+//   case <n> ackpub <c> <msg>              Publish(c, msg) called from inside the acknowledgement callback of the preceding unsub
+//                                          (Unsubscribe holds no mutex); for model and specification: a Publish after the Unsubscribe
 //   case <n> resume <c> <msg>              the blocked Publish returns
 //   case <n> deq <c> <t|s>                 queue the message came from (observed)
 //   case <n> term <c>
@@ -476,6 +478,52 @@ func (w *world) opUnsub(n int, fs []string) {
 	w.emit(fmt.Sprintf("unsub %d %s", n, strings.Join(parts, ";")), errText(err), true)
 }
 
+// opUnsubAckPub: Unsubscribe(c, topics, ack) whose ack callback performs another Publish.  The MQTT
+// acknowledgement is what the client sees, so as far as the property is concerned the Publish happens
+// after the Unsubscribe: emitted as `unsub` followed by `ackpub`.
+func (w *world) opUnsubAckPub(n int, fs []string, pn int, m packet.Message) {
+	cl := w.client(n)
+	if !cl.hasSess || cl.term || w.blk != nil {
+		return
+	}
+	pcl := w.ensureBare(pn, "")
+	_, blockers := w.predict(pcl.c, &m)
+	if len(blockers) > 0 {
+		// the inner Publish could wait (before the filters are removed it can only match more): not issued
+		w.opUnsub(n, fs)
+		return
+	}
+	parts := make([]string, len(fs))
+	for i, f := range fs {
+		parts[i] = hx.Hx([]byte(f))
+	}
+	var perr error
+	called := false
+	mm := m
+	done := make(chan error, 1)
+	go func() {
+		done <- w.be.Unsubscribe(cl.c, fs, func() {
+			called = true
+			perr = w.be.Publish(pcl.c, &mm, nil)
+		})
+	}()
+	var err error
+	select {
+	case err = <-done:
+	case <-time.After(10 * time.Second):
+		w.hang(fmt.Sprintf("unsub+ackpub %d", n))
+		return
+	}
+	w.emit(fmt.Sprintf("unsub %d %s", n, strings.Join(parts, ";")), errText(err), false)
+	if called {
+		w.emit(fmt.Sprintf("ackpub %d %s", pn, hx.MsgText(&m)), errText(perr), true)
+	} else {
+		// the callback was not called: take the snapshot with a no-op step
+		w.emit("closed 0", "misuse", true)
+	}
+	w.c.Stat("unsub_ackpub", 1)
+}
+
 func (w *world) opPub(n int, m packet.Message) {
 	if w.blk != nil {
 		return
@@ -656,6 +704,13 @@ func (w *world) execLine(f []string) {
 			fs = append(fs, string(hx.Unhx(p)))
 		}
 		w.opUnsub(atoi(f[1]), fs)
+	case "unsubpub":
+		var fs []string
+		for _, p := range strings.Split(f[2], ";") {
+			fs = append(fs, string(hx.Unhx(p)))
+		}
+		x := strings.Split(f[4], ",")
+		w.opUnsubAckPub(atoi(f[1]), fs, atoi(f[3]), packet.Message{Topic: string(hx.Unhx(x[0])), Payload: hx.Unhx(x[1]), QOS: packet.QOS(atoi(x[2])), Retain: x[3] == "1"})
 	case "pub":
 		x := strings.Split(f[2], ",")
 		w.opPub(atoi(f[1]), packet.Message{Topic: string(hx.Unhx(x[0])), Payload: hx.Unhx(x[1]), QOS: packet.QOS(atoi(x[2])), Retain: x[3] == "1"})
@@ -812,6 +867,10 @@ func famExhaustive(c *hx.Ctx, depth int) {
 		"unsub 1 " + hxs("a/+"),
 		"unsub 1 " + hxs("a/#"),
 		"unsub 2 " + hxs("#") + ";" + hxs("a/b"),
+		"unsubpub 1 " + hxs("a/+") + " 2 " + hxs("a/b") + ",P,1,0",
+		"unsubpub 1 " + hxs("a/#") + " 1 " + hxs("a/b") + ",P,0,0",
+		"unsubpub 2 " + hxs("#") + ";" + hxs("a/b") + " 1 " + hxs("a/b") + ",P,1,1",
+		"unsubpub 1 " + hxs("a/b") + " 2 " + hxs("a/b") + ",P,0,0",
 		"pub 1 " + hxs("a/b") + ",P,1,0",
 		"pub 2 " + hxs("a/b") + ",P,2,1",
 		"pub 2 " + hxs("a/b") + ",-,0,1",
@@ -932,7 +991,15 @@ func famRandom(c *hx.Ctx, count, maxLen int) {
 				for i := 0; i < k; i++ {
 					fs = append(fs, filterU[r.Intn(len(filterU))])
 				}
-				w.opUnsub(withSess[r.Intn(len(withSess))], fs)
+				if r.Intn(2) == 0 {
+					w.opUnsub(withSess[r.Intn(len(withSess))], fs)
+				} else {
+					// a Publish (by the same or another client) from inside the acknowledgement callback
+					pubs := alive(func(*cli) bool { return true })
+					pn := pubs[r.Intn(len(pubs))]
+					m := packet.Message{Topic: nameU[r.Intn(len(nameU))], QOS: packet.QOS(r.Intn(3)), Retain: r.Intn(4) == 0, Payload: hx.Unhx(payload())}
+					w.opUnsubAckPub(withSess[r.Intn(len(withSess))], fs, pn, m)
+				}
 			case x < 72: // publish
 				pubs := alive(func(*cli) bool { return true })
 				pn := 0 // an outside publisher (a will of a connection whose Setup failed)
@@ -984,7 +1051,8 @@ func famRandom(c *hx.Ctx, count, maxLen int) {
 // replay: re-executes the `hist`/`case` lines of a replay file
 func replayFile(c *hx.Ctx, path string) {
 	var w *world
-	for _, l := range hx.ReadLines(path) {
+	lines := hx.ReadLines(path)
+	for li, l := range lines {
 		f := strings.Fields(l)
 		if len(f) == 0 {
 			continue
@@ -1001,6 +1069,18 @@ func replayFile(c *hx.Ctx, path string) {
 			w = newWorld(c, cap)
 			c.Emit("hist %d %d", histN, cap)
 		} else if f[0] == "case" && len(f) >= 3 && w != nil {
+			if f[2] == "ackpub" {
+				continue // executed together with the preceding unsub
+			}
+			if f[2] == "unsub" && len(f) >= 5 {
+				// is the next case an ackpub?  (lines: case / impl / snap / case)
+				for _, nl := range lines[li+1 : min(li+4, len(lines))] {
+					nf := strings.Fields(nl)
+					if len(nf) >= 5 && nf[0] == "case" && nf[2] == "ackpub" {
+						f = []string{"case", f[1], "unsubpub", f[3], f[4], nf[3], nf[4]}
+					}
+				}
+			}
 			w.execLine(f[2:])
 		}
 	}
